@@ -31,6 +31,10 @@ import (
 // removes a directory tree (64 us on tmpfs vs 2.3 ms on the ext4 of the reference machine).
 var tmpRoot, fastRoot string
 
+// hardStop (thorough only) ends the readdir exploration early so that a run on a loaded machine stays
+// below 30 minutes; it is reported as a cap (exhaustive:false), never as a verdict.
+var hardStop time.Time
+
 func cleanup() {
 	if tmpRoot != "" {
 		os.RemoveAll(tmpRoot)
@@ -219,7 +223,13 @@ func (w *worker) execute(hist []Op, verbose bool) (r execResult) {
 			res := x.do(&o)
 			if f, d := compare(exp, res, book); f != "" {
 				say("  probe %s -> errno=%d n=%d | model: %s", o.String(), res.Errno, res.N, expString(exp))
-				r.mism = &mismatch{Sig: last + ":post:" + k + ":" + f, Step: len(hist),
+				sig := last + ":post:" + k + ":" + f
+				if n := len(hist); n > 0 && hist[n-1].K == "fd_renumber" && hist[n-1].Fd == hist[n-1].Fd2 &&
+					o.Fd == hist[n-1].Fd && (k == "fd_tell" || k == "fd_filestat_get") && f == "errno" && res.Errno == eBADF {
+					// the descriptor that was renumbered onto itself (successfully) is now closed
+					sig = "fd_renumber:from==to:descriptor-closed"
+				}
+				r.mism = &mismatch{Sig: sig, Step: len(hist),
 					What: fmt.Sprintf("after [%s] the probe %s: %s", histString(hist), o.String(), d)}
 				return
 			}
@@ -265,7 +275,7 @@ type bfsStats struct {
 	exhaustive                           bool
 }
 
-func fsBFS(run *fw.Run, depth int, outcomes *fw.Counter, samples *fw.Sampler) bfsStats {
+func fsBFS(run *fw.Run, depth int, deadline time.Time, outcomes *fw.Counter, samples *fw.Sampler) bfsStats {
 	alpha := alphabet()
 	var st bfsStats
 	st.exhaustive = true
@@ -289,8 +299,8 @@ func fsBFS(run *fw.Run, depth int, outcomes *fw.Counter, samples *fw.Sampler) bf
 		var next [][]uint16
 		lvl := map[string]int64{"frontier": int64(len(frontier))}
 		for c0 := 0; c0 < len(frontier); c0 += chunkStates {
-			if run.Expired() {
-				run.Capped(fmt.Sprintf("budget at depth %d", d))
+			if run.Expired() || (!deadline.IsZero() && time.Now().After(deadline)) {
+				run.Capped(fmt.Sprintf("budget at depth %d after %d of %d frontier states", d, c0, len(frontier)))
 				st.exhaustive = false
 				st.perDepth = append(st.perDepth, lvl)
 				return st
@@ -369,8 +379,13 @@ func main() {
 	}
 	run := fw.Start("C16", "model_checking")
 	depth := 3
+	var deadline time.Time
 	if run.Thorough() {
-		depth = 4
+		// depth 5 is ~10^7 transitions (~200 s on 16 idle cores); the BFS part stops after 15 minutes at the
+		// latest so that the whole thorough run stays below 30 minutes on a loaded machine.
+		depth = 5
+		deadline = time.Now().Add(15 * time.Minute)
+		hardStop = time.Now().Add(27 * time.Minute)
 	}
 	if s := os.Getenv("C16_DEPTH"); s != "" {
 		fmt.Sscan(s, &depth)
@@ -378,7 +393,7 @@ func main() {
 	outcomes := fw.NewCounter()
 	samples := fw.NewSampler(16)
 	t0 := time.Now()
-	st := fsBFS(run, depth, outcomes, samples)
+	st := fsBFS(run, depth, deadline, outcomes, samples)
 	t1 := time.Now()
 	rd := readdirExplore(run, outcomes, samples)
 	t2 := time.Now()
